@@ -21,9 +21,6 @@
 #include "util/rbt.h"
 #include "version_edit.h"
 
-#ifndef VP_STAGE
-#define VP_STAGE 3
-#endif
 #ifndef VP_MODE
 #define VP_MODE 0
 #endif
@@ -112,7 +109,7 @@ check_edit(const ldb_edit_t *e, const ref_edit_t *r) {
   VP_ASSERT(n == r->ndel, "deleted file walk length == reference");
 }
 
-#if VP_MODE == 0
+#if VP_MODE != 1
 
 #ifndef VP_OUTCAP
 #define VP_OUTCAP 256
@@ -132,7 +129,8 @@ vp_expect_bytes(const uint8_t *got, size_t gn, const uint8_t *want, size_t wn) {
 /* A symbolic 64-bit number whose varint length class is concrete per query:
  * field number idx gets length 1 + (idx * 3 + VP_ROT) % 10, so that over
  * VP_ROT = 0..9 every field takes every length 1..10 (= every 64-bit value),
- * while the solver never has to case-split over length combinations. */
+ * while the solver never has to case-split over length combinations (which
+ * is what made the unsplit query run out of time). */
 #ifndef VP_ROT
 #define VP_ROT 0
 #endif
@@ -146,133 +144,171 @@ sym_num(int idx) {
   return x;
 }
 
+static uint8_t vp_cpk[VP_NC + 1][VP_KL + 1];
+static uint8_t vp_sk[VP_NF + 1][VP_KS + 1];
+static uint8_t vp_lk[VP_NF + 1][VP_KL + 1];
+static char vp_name[VP_CN + 1];
+static uint8_t vp_refbuf[VP_OUTCAP];
+
+/* the original edit, described as a reference edit */
 static void
-sym_key(uint8_t *k, size_t n) {
-  vp_fill(k, n);
+sym_original(ref_edit_t *o) {
+  size_t i;
+
+  ref_edit_init(o);
+  o->has_cmp = vp_bool();
+  for (i = 0; i < VP_CN; i++) {
+    vp_name[i] = (char)vp_u8();
+    VP_ASSUME(vp_name[i] != 0);
+  }
+  vp_name[VP_CN] = 0;
+  o->cmp = (const uint8_t *)vp_name;
+  o->cmplen = VP_CN;
+  o->has_log = vp_bool();
+  o->log = sym_num(0);
+  o->has_prev = vp_bool();
+  o->prev = sym_num(1);
+  o->has_next = vp_bool();
+  o->next = sym_num(2);
+  o->has_seq = vp_bool();
+  o->seq = sym_num(3);
+  o->ncp = VP_NC;
+  for (i = 0; i < VP_NC; i++) {
+    o->cp[i].level = vp_u8();
+    VP_ASSUME(o->cp[i].level < 7);
+    vp_fill(vp_cpk[i], VP_KL);
+    o->cp[i].key = vp_cpk[i];
+    o->cp[i].klen = VP_KL;
+  }
+  o->ndel = VP_ND;
+  for (i = 0; i < VP_ND; i++) {
+    o->del[i].level = vp_u8();
+    VP_ASSUME(o->del[i].level < 7);
+    o->del[i].number = sym_num(4 + (int)i);
+  }
+  o->nnf = VP_NF;
+  for (i = 0; i < VP_NF; i++) {
+    o->nf[i].level = vp_u8();
+    VP_ASSUME(o->nf[i].level < 7);
+    o->nf[i].number = sym_num(6 + 2 * (int)i);
+    o->nf[i].size = sym_num(7 + 2 * (int)i);
+    vp_fill(vp_sk[i], VP_KS);
+    vp_fill(vp_lk[i], VP_KL);
+    o->nf[i].sk = vp_sk[i];
+    o->nf[i].sklen = VP_KS;
+    o->nf[i].lk = vp_lk[i];
+    o->nf[i].lklen = VP_KL;
+  }
+}
+
+/* build it through the real API */
+static void
+build_edit(ldb_edit_t *e, const ref_edit_t *o) {
+  ldb_slice_t k1, k2;
+  size_t i;
+
+  ldb_edit_init(e);
+  if (o->has_cmp)
+    ldb_edit_set_comparator_name(e, vp_name);
+  if (o->has_log)
+    ldb_edit_set_log_number(e, o->log);
+  if (o->has_prev)
+    ldb_edit_set_prev_log_number(e, o->prev);
+  if (o->has_next)
+    ldb_edit_set_next_file(e, o->next);
+  if (o->has_seq)
+    ldb_edit_set_last_sequence(e, o->seq);
+  for (i = 0; i < VP_NC; i++) {
+    k1.data = vp_cpk[i]; k1.size = VP_KL; k1.alloc = 0;
+    ldb_edit_set_compact_pointer(e, (int)o->cp[i].level, &k1);
+  }
+  for (i = 0; i < VP_ND; i++)
+    ldb_edit_remove_file(e, (int)o->del[i].level, o->del[i].number);
+  for (i = 0; i < VP_NF; i++) {
+    k1.data = vp_sk[i]; k1.size = VP_KS; k1.alloc = 0;
+    k2.data = vp_lk[i]; k2.size = VP_KL; k2.alloc = 0;
+    ldb_edit_add_file(e, (int)o->nf[i].level, o->nf[i].number, o->nf[i].size, &k1, &k2);
+  }
 }
 
 void
 harness(void) {
-  static uint8_t cpk[VP_NC + 1][VP_KL + 1];
-  static uint8_t sk[VP_NF + 1][VP_KS + 1];
-  static uint8_t lk[VP_NF + 1][VP_KL + 1];
-  static char name[VP_CN + 1];
-  static uint8_t refbuf[VP_OUTCAP];
-  ref_edit_t o, d;
-  ldb_edit_t e, e2;
-  ldb_buffer_t dst;
-  ldb_slice_t src, k1, k2;
-  size_t i, rn;
-  int ok;
+  ref_edit_t o;
+  size_t rn;
 
-  /* the original, described as a reference edit */
-  ref_edit_init(&o);
-  o.has_cmp = vp_bool();
-  for (i = 0; i < VP_CN; i++) {
-    name[i] = (char)vp_u8();
-    VP_ASSUME(name[i] != 0);
-  }
-  name[VP_CN] = 0;
-  o.cmp = (const uint8_t *)name;
-  o.cmplen = VP_CN;
-  o.has_log = vp_bool();
-  o.log = sym_num(0);
-  o.has_prev = vp_bool();
-  o.prev = sym_num(1);
-  o.has_next = vp_bool();
-  o.next = sym_num(2);
-  o.has_seq = vp_bool();
-  o.seq = sym_num(3);
-  o.ncp = VP_NC;
-  for (i = 0; i < VP_NC; i++) {
-    o.cp[i].level = vp_u8();
-    VP_ASSUME(o.cp[i].level < 7);
-    sym_key(cpk[i], VP_KL);
-    o.cp[i].key = cpk[i];
-    o.cp[i].klen = VP_KL;
-  }
-  o.ndel = VP_ND;
-  for (i = 0; i < VP_ND; i++) {
-    o.del[i].level = vp_u8();
-    VP_ASSUME(o.del[i].level < 7);
-    o.del[i].number = sym_num(4 + (int)i);
-  }
-  o.nnf = VP_NF;
-  for (i = 0; i < VP_NF; i++) {
-    o.nf[i].level = vp_u8();
-    VP_ASSUME(o.nf[i].level < 7);
-    o.nf[i].number = sym_num(6 + 2 * (int)i);
-    o.nf[i].size = sym_num(7 + 2 * (int)i);
-    sym_key(sk[i], VP_KS);
-    sym_key(lk[i], VP_KL);
-    o.nf[i].sk = sk[i];
-    o.nf[i].sklen = VP_KS;
-    o.nf[i].lk = lk[i];
-    o.nf[i].lklen = VP_KL;
-  }
+  sym_original(&o);
 
-  /* build it through the real API */
-  ldb_edit_init(&e);
-  if (o.has_cmp)
-    ldb_edit_set_comparator_name(&e, name);
-  if (o.has_log)
-    ldb_edit_set_log_number(&e, o.log);
-  if (o.has_prev)
-    ldb_edit_set_prev_log_number(&e, o.prev);
-  if (o.has_next)
-    ldb_edit_set_next_file(&e, o.next);
-  if (o.has_seq)
-    ldb_edit_set_last_sequence(&e, o.seq);
-  for (i = 0; i < VP_NC; i++) {
-    k1.data = cpk[i]; k1.size = VP_KL; k1.alloc = 0;
-    ldb_edit_set_compact_pointer(&e, (int)o.cp[i].level, &k1);
-  }
-  for (i = 0; i < VP_ND; i++)
-    ldb_edit_remove_file(&e, (int)o.del[i].level, o.del[i].number);
-  for (i = 0; i < VP_NF; i++) {
-    k1.data = sk[i]; k1.size = VP_KS; k1.alloc = 0;
-    k2.data = lk[i]; k2.size = VP_KL; k2.alloc = 0;
-    ldb_edit_add_file(&e, (int)o.nf[i].level, o.nf[i].number, o.nf[i].size, &k1, &k2);
-  }
+#if VP_MODE == 0 || VP_MODE == 4
+  { /* export: bytes == reference encoder (MODE 4: and decode them directly) */
+    ldb_edit_t e;
+    ldb_buffer_t dst;
 
-  /* the deleted files are a set: canonical order, duplicates collapse */
-  ref_canon_del(&o);
-  check_edit(&e, &o);
+    build_edit(&e, &o);
+    /* the deleted files are a set: canonical order, duplicates collapse */
+    ref_canon_del(&o);
+    check_edit(&e, &o);
 
-  /* export == reference encoder */
-  ldb_buffer_init(&dst);
-#ifdef VP_PRE
-  ldb_buffer_grow(&dst, VP_PRE);
+    ldb_buffer_init(&dst);
+    ldb_edit_export(&dst, &e);
+    rn = ref_encode(&o, vp_refbuf);
+    VP_ASSERT(rn <= VP_OUTCAP, "vp-model: reference buffer large enough");
+    VP_ASSERT(dst.size <= dst.alloc, "exported size within allocation");
+    vp_expect_bytes(dst.data, dst.size, vp_refbuf, rn);
+#if VP_MODE == 4
+    {
+      ref_edit_t d;
+      ldb_edit_t e2;
+      ldb_slice_t src;
+      int ok = ref_decode(dst.data, dst.size, &d);
+      VP_ASSERT(ok == 1, "reference decoder accepts exported record");
+      VP_ASSERT(!d.overflow, "vp-model: reference decoder capacity");
+      ref_canon_del(&d);
+      VP_ASSERT(ref_edit_equal(&d, &o), "reference decoder recovers the original fields");
+      ldb_edit_init(&e2);
+      src.data = dst.data; src.size = dst.size; src.alloc = 0;
+      ok = ldb_edit_import(&e2, &src);
+      VP_ASSERT(ok == 1, "ldb_edit_import accepts exported record");
+      check_edit(&e2, &o);
+      ldb_edit_clear(&e2);
+    }
 #endif
-  ldb_edit_export(&dst, &e);
-  rn = ref_encode(&o, refbuf);
-  VP_ASSERT(rn <= VP_OUTCAP, "vp-model: reference buffer large enough");
-  VP_ASSERT(dst.size <= dst.alloc, "exported size within allocation");
-  vp_expect_bytes(dst.data, dst.size, refbuf, rn);
+    VP_WITNESS("exported");
+    ldb_edit_clear(&e);
+    ldb_buffer_clear(&dst);
+  }
+#elif VP_MODE == 2
+  { /* import of the reference encoder's bytes (== lcdb's export bytes by MODE 0) */
+    ldb_edit_t e2;
+    ldb_slice_t src;
+    int ok;
 
-#if VP_STAGE >= 2
-  /* independent decoder accepts lcdb's bytes with the same fields */
-  ok = ref_decode(dst.data, dst.size, &d);
-  VP_ASSERT(ok == 1, "reference decoder accepts exported record");
-  VP_ASSERT(!d.overflow, "vp-model: reference decoder capacity");
-  ref_canon_del(&d);
-  VP_ASSERT(ref_edit_equal(&d, &o), "reference decoder recovers the original fields");
+    ref_canon_del(&o);
+    rn = ref_encode(&o, vp_refbuf);
+    VP_ASSERT(rn <= VP_OUTCAP, "vp-model: reference buffer large enough");
+    ldb_edit_init(&e2);
+    src.data = vp_refbuf; src.size = rn; src.alloc = 0;
+    ok = ldb_edit_import(&e2, &src);
+    VP_ASSERT(ok == 1, "ldb_edit_import accepts the standard record");
+    check_edit(&e2, &o);
+    VP_WITNESS("imported");
+    ldb_edit_clear(&e2);
+  }
+#else
+  { /* VP_MODE 3: reference decoder accepts the (shared) bytes with the same fields */
+    ref_edit_t d;
+    int ok;
 
+    ref_canon_del(&o);
+    rn = ref_encode(&o, vp_refbuf);
+    VP_ASSERT(rn <= VP_OUTCAP, "vp-model: reference buffer large enough");
+    ok = ref_decode(vp_refbuf, rn, &d);
+    VP_ASSERT(ok == 1, "reference decoder accepts the record");
+    VP_ASSERT(!d.overflow, "vp-model: reference decoder capacity");
+    ref_canon_del(&d);
+    VP_ASSERT(ref_edit_equal(&d, &o), "reference decoder recovers the original fields");
+    VP_WITNESS("ref-decoded");
+  }
 #endif
-#if VP_STAGE >= 3
-  /* lcdb's decoder recovers the original */
-  ldb_edit_init(&e2);
-  src.data = dst.data; src.size = dst.size; src.alloc = 0;
-  ok = ldb_edit_import(&e2, &src);
-  VP_ASSERT(ok == 1, "ldb_edit_import accepts exported record");
-  check_edit(&e2, &o);
-  ldb_edit_clear(&e2);
-#endif
-
-  VP_WITNESS("roundtrip");
-
-  ldb_edit_clear(&e);
-  ldb_buffer_clear(&dst);
 }
 
 #else /* VP_MODE == 1 */
